@@ -116,6 +116,25 @@ def grep_forbidden(files):
     return hits
 
 
+def import_closure(mod):
+    """Lean source files of this project that module `mod` depends on (transitively), plus the driver."""
+    seen, todo = set(), [mod]
+    while todo:
+        m = todo.pop()
+        if m in seen or not m.startswith("SLV"):
+            continue
+        fp = os.path.join(LEAN, *m.split(".")) + ".lean"
+        if not os.path.exists(fp):
+            continue
+        seen.add(m)
+        for ln in open(fp):
+            ln = ln.strip()
+            if ln.startswith("import "):
+                todo += ln[len("import "):].split()
+    files = [os.path.join(LEAN, *m.split(".")) + ".lean" for m in seen]
+    return files
+
+
 def lean_sources():
     out = []
     for d, _, fs in os.walk(os.path.join(LEAN, "SLV")):
